@@ -1,5 +1,5 @@
 (* C06 - undo restores the previous model state; redo restores the next one.
-   Statements only; proofs in Proofs/C06Proofs.v.  Model: Model/Commands.v
+   Statements only; proofs in Proofs/C06Proofs.v, C06Refs.v, C06More.v.  Model: Model/Commands.v
    (pyecore/commands.py statement by statement on the kernel model
    Model/Kernel.v, after the `fix:` commits listed in known_findings.json).
 
@@ -38,16 +38,54 @@
    Third group (any metamodel): containment references WITHOUT opposite - Add / Remove on a
    containment collection and Set on a single-valued containment, when the child put under the
    owner is neither contained nor a resource root: values, order and CONTAINERS come back
-   (C06_add_containment_undo_redo, C06_remove_containment_undo_redo, C06_set_containment_undo_redo;
-   per command, not lifted to words: the global invariant for the linking direction with
-   containment is not available yet).
-   MISSING as theorems: containment together with an opposite (container ends), self-opposite
-   references, Move on references, Delete, Compound.  For these the model is tied to the implementation by the correspondence only, and the
-   implementation is known NOT to satisfy the property in the situations listed in
-   known_findings.json (ids F-C06-...); C06_compound_can_undo_refuted exhibits one on the model. *)
+   (C06_add_containment_undo_redo, C06_remove_containment_undo_redo, C06_set_containment_undo_redo).
+   Fourth group (Proofs/C06More.v; well-formed metamodels wf_mm WITH containment, invariant K = the global
+   well-formedness WF of Proofs/WFBase.v, preserved by every kernel operation, + typed slots + duplicate-free
+   unique attribute collections):
+     * COMPOUND, generically and for members of any number: members that `invert` one after the other in
+       the states they meet make a compound whose undo (reverse order) / redo (in order) invert as a whole
+       (C06_compound_undo_redo, _effect, _execute); what Compound.can_execute / can_undo ask in the model
+       (C06_compound_can_execute_spec: every member BEFORE the first runs; C06_compound_can_undo_spec: every
+       member on the FINAL state); C06_compound_closure closes any covered set of primitive commands under
+       (nested) Compound, the roll-back of a compound whose member raises included, under exactly the two
+       side conditions whose failure is a known finding: a member is accepted on its own, with the same
+       recorded fields, in the state it meets (else F-C06-compound-members-interfere) and Compound.can_undo
+       accepts at the end (else F-C06-compound-can-undo; C06_compound_can_undo_needed_refuted and
+       C06_compound_can_undo_refuted exhibit it);
+     * containment WITH an opposite (children <-> single-valued container end): Add / Remove on the
+       containment collection, Set on a single-valued containment, for an unowned new child and any previous
+       child (values, order, containers, resource membership: C06_add_/remove_/set_container_end_undo_redo),
+       Move inside the containment collection, with or without container end (C06_move_containment_undo_redo),
+       and Set on the container end itself (link an unowned object; unset when the object is the last child,
+       C06_set_on_container_end_*; without `last child` false: C06_set_on_container_end_relink_refuted,
+       F-C06-relink-order);
+     * the word-level theorems for all of this: invariant of the (done, undone) history and k undos then
+       k redos = identity for words over attributes, plain references, containment with and without container
+       end (Set / Add / Remove / Move), Set on container ends and Compounds thereof, each command meeting its side condition in the
+       state it meets (C06_words_invariant_containment_partial, C06_k_undo_k_redo_containment_partial), and
+       for the reference kinds of the second group closed under Compound (..._refs_compound_partial);
+     * DELETE: execute / redo / undo of any Delete keep WF (C06_delete_keeps_WF).  Undo restores the
+       observable state for the Delete of a LEAF child (no contents, no link but its container end, empty
+       inverse set): every value, container and resource membership back, the parent's collection with
+       the same members and the deleted child at the END (C06_delete_leaf_undo_partial), exactly when it
+       was the last child (C06_delete_leaf_undo_exact_partial); redo from there gives the state after
+       the Delete and the same recorded command (C06_delete_leaf_execute_redo_partial).  The order of
+       the parent's collection is NOT restored in general although its opposite is single-valued
+       (C06_delete_undo_child_order_refuted, F-C06-relink-order; same on the implementation).
+   STILL MISSING as theorems: Delete beyond the leaf case (contents, cross references, holders found through
+   the inverse set) and Delete inside the word-level theorems - redo of a Delete reads EObject._inverse_rels,
+   which the observation obs_eq (values, containers, resources) does not determine, so `inverts` as used by
+   the word-level invariant is too coarse for Delete; references with an opposite inside metamodels that
+   also have containment (the second group assumes no containment at all); Set that re-parents (container
+   end from one container to another) or sets the value already held; self-opposite references; Move on
+   references that are not containments.  For these the model is tied to the implementation by the correspondence only, and the
+   implementation is known NOT to satisfy the property in the situations listed in known_findings.json
+   (ids F-C06-...). *)
 From Coq Require Import ZArith List Bool.
 From PyecoreV Require Import Lib.PyBase Lib.PyList Model.Kernel Model.Commands
-     Proofs.C01Proofs Proofs.C01Full Proofs.C03Proofs Proofs.C06Proofs Proofs.C06Refs.
+     Proofs.C01Proofs Proofs.C01Full Proofs.C03Proofs Proofs.WFBase Proofs.SymLink
+     Proofs.C06Proofs Proofs.C06Refs Proofs.C06More.
+From PyecoreV Require Proofs.Acyclic.
 Import ListNotations.
 Open Scope Z_scope.
 
@@ -382,3 +420,355 @@ Example C06_containment_word_witness :
   let ms2 := st_run ex_mm_cont ms1 [SUndo; SUndo; SRedo; SRedo] in
   cont (fst ms2) 1 = Some (0, 0) /\ cont (fst ms2) 2 = Some (0, 1) /\ vals (fst ms2) (0, 1) = [VObj 2].
 Proof. vm_compute. repeat split; reflexivity. Qed.
+
+(* ====================================================================== *)
+(* Proofs/C06More.v: Compound, containment with a container end, Delete     *)
+(* ====================================================================== *)
+
+(* ---------- Compound ---------- *)
+(* what the model's Compound.can_execute asks: every member, in the state BEFORE the first member runs
+   (prep m s c = the member as its own can_execute, asked in s, leaves it) *)
+Theorem C06_compound_can_execute_spec :
+  forall m s cs c1,
+    can_execute m s (CCompound cs) = (Ok true, c1) <->
+    (c1 = CCompound (map (prep m s) cs) /\ Forall (fun c => fst (can_execute m s c) = Ok true) cs).
+Proof. exact compound_can_execute_spec. Qed.
+Print Assumptions C06_compound_can_execute_spec.
+
+(* what Compound.can_undo asks: every member, on the state the WHOLE compound left *)
+Theorem C06_compound_can_undo_spec :
+  forall m t cs, can_undo m t (CCompound cs) = Ok true <-> Forall (fun c => can_undo m t c = Ok true) cs.
+Proof. exact compound_can_undo_spec. Qed.
+Print Assumptions C06_compound_can_undo_spec.
+
+(* a compound that does not raise = its members executed one after the other (seq_exec) *)
+Theorem C06_compound_execute :
+  forall m s cs s' c2,
+    execute m s (CCompound cs) = ((None, s'), c2) -> exists cs', c2 = CCompound cs' /\ seq_exec m s cs s' cs'.
+Proof. exact execute_compound_ok. Qed.
+Print Assumptions C06_compound_execute.
+
+(* members of any number that invert one after the other (seq_inv: `inverts` between the states each member
+   met) make a compound that inverts: undo runs the members' undos in reverse order, redo their redos in
+   order.  The only other premise is the model's own Compound.can_undo on the final state. *)
+Theorem C06_compound_undo_redo :
+  forall m cs s0 s1,
+    seq_inv m cs s0 s1 -> can_undo m s1 (CCompound cs) = Ok true -> inverts m (CCompound cs) s0 s1.
+Proof. exact compound_inverts. Qed.
+Print Assumptions C06_compound_undo_redo.
+
+(* ... and what undo / redo of the compound DO whenever they are called *)
+Theorem C06_compound_undo_redo_effect :
+  forall m cs s0 s1,
+    seq_inv m cs s0 s1 ->
+    (forall t, obs_eq t s1 -> exists t', undo m t (CCompound cs) = ((None, t'), CCompound cs) /\ obs_eq t' s0) /\
+    (forall t, obs_eq t s0 -> exists t', redo m t (CCompound cs) = ((None, t'), CCompound cs) /\ obs_eq t' s1).
+Proof. exact compound_undo_redo. Qed.
+Print Assumptions C06_compound_undo_redo_effect.
+
+(* closing ANY covered set of primitive commands (invariant P, side condition ok0 in the state the command
+   meets) under Compound, nested compounds included.  okC m ok0 s (Compound cs): every member is covered in
+   the state it meets, would be accepted there on its own with the fields can_execute recorded in s, and
+   Compound.can_undo accepts at the end.  A compound whose member raises is rolled back: observably nothing
+   happened. *)
+Theorem C06_compound_closure :
+  forall m (P : state -> Prop) (ok0 : state -> cmd -> Prop),
+    (forall s c c1 s' c2, P s -> ok0 s c -> can_execute m s c = (Ok true, c1) ->
+                          execute m s c1 = ((None, s'), c2) -> inverts m c2 s s' /\ P s') ->
+    (forall s c c1 e s' c2, P s -> ok0 s c -> can_execute m s c = (Ok true, c1) ->
+                            execute m s c1 = ((Some e, s'), c2) -> obs_eq s' s) ->
+    forall c,
+      (forall s c1 s' c2, P s -> okC m ok0 s c -> can_execute m s c = (Ok true, c1) ->
+                          execute m s c1 = ((None, s'), c2) -> inverts m c2 s s' /\ P s') /\
+      (forall s c1 e s' c2, P s -> okC m ok0 s c -> can_execute m s c = (Ok true, c1) ->
+                            execute m s c1 = ((Some e, s'), c2) -> obs_eq s' s).
+Proof. exact okC_closed. Qed.
+Print Assumptions C06_compound_closure.
+
+(* the can_undo premise cannot be dropped (F-C06-compound-can-undo); same behaviour on the implementation *)
+Example C06_compound_can_undo_needed_refuted :
+  let s0 := fold_left (next ex_mm) [OAppend 0 1 (VInt 1)] (init_state ex_mm) in
+  let c := CCompound [CAdd 0 1 (VInt 7) None; CRemove 0 1 (VInt 7) None] in
+  okM ex_mm (covered3 ex_mm) s0 s0 [CAdd 0 1 (VInt 7) None; CRemove 0 1 (VInt 7) None] /\
+  ~ cu_end ex_mm s0 c /\
+  (let ms := st_run ex_mm (s0, empty_stack) [SExec c] in
+   sidx (snd ms) = 0%Z /\ vals (fst ms) (0, 1) = [VInt 1] /\
+   fst (st_step ex_mm ms SUndo) = None /\ sidx (snd (snd (st_step ex_mm ms SUndo))) = 0%Z).
+Proof. exact compound_can_undo_needed_refuted. Qed.
+
+(* ---------- containment references WITH an opposite (children <-> container end) ---------- *)
+(* K m s: the global well-formedness WF of Proofs/WFBase.v (symmetric opposite ends, shaped slots, container
+   pointer = the containment slot that lists the object, resources, roots without container; preserved by
+   every kernel operation: Proofs/OwnAll.v) + typed slots (C03) + duplicate-free unique attribute collections.
+   cc2 s s' x f lx y g ly c: exactly the slots (x, f) and (y, g) and the container pointer of y change.
+   unowned m s y: y has no container and is no root of a resource - the property's side condition `the
+   command does not take its value away from another container`. *)
+Theorem C06_add_container_end_undo_redo :
+  forall m, wf_mm m -> ref_typed m ->
+  forall s f g x y idx c1 s' c',
+    K m s -> f_cont (fd m f) = true -> f_opp (fd m f) = Some g -> f_many (fd m f) = true ->
+    unowned m s y ->
+    can_execute m s (CAdd x f (VObj y) idx) = (Ok true, c1) ->
+    execute m s c1 = ((None, s'), c') ->
+    exists i', c' = CAdd x f (VObj y) (Some i') /\
+               inverts m c' s s' /\
+               cc2 s s' x f (py_insert i' (VObj y) (vals s (x, f))) y g [VObj x] (Some (x, f)).
+Proof. exact add_ce_undo_redo. Qed.
+Print Assumptions C06_add_container_end_undo_redo.
+
+Theorem C06_remove_container_end_undo_redo :
+  forall m, wf_mm m -> ref_typed m ->
+  forall s f g x v idx c1 s' c',
+    K m s -> f_cont (fd m f) = true -> f_opp (fd m f) = Some g -> f_many (fd m f) = true ->
+    can_execute m s (CRemove x f v idx) = (Ok true, c1) ->
+    execute m s c1 = ((None, s'), c') ->
+    exists i y l2, c' = CRemove x f (VObj y) (Some i) /\
+                   inverts m c' s s' /\ cc2 s s' x f l2 y g [VNone] None.
+Proof. exact remove_ce_undo_redo. Qed.
+Print Assumptions C06_remove_container_end_undo_redo.
+
+(* Set on a single-valued containment reference with a container end: any previous child, new child None or
+   unowned; SetV / cont_after: the slot, the container ends of the old and the new child, their containers *)
+Theorem C06_set_container_end_undo_redo :
+  forall m, wf_mm m -> ref_typed m ->
+  forall s f g x v p0 s' c',
+    K m s -> f_cont (fd m f) = true -> f_opp (fd m f) = Some g -> f_many (fd m f) = false ->
+    (forall y, v = VObj y -> unowned m s y) ->
+    execute m s (CSet x f v p0) = ((None, s'), c') ->
+    inverts m c' s s' /\
+    (forall k, vals s' k = SetV (vals s) x f g v (single s (x, f)) k) /\
+    (forall o, cont s' o = cont_after (cont s) x f v (single s (x, f)) o) /\
+    (forall o, eres s' o = eres s o) /\ (forall r, rcont s' r = rcont s r).
+Proof. exact set_ce_undo_redo. Qed.
+Print Assumptions C06_set_container_end_undo_redo.
+
+(* Set on the container end itself: x.g = p for an unowned x (x is appended to p.f / stored in the free p.f) *)
+Theorem C06_set_on_container_end_link_undo_redo :
+  forall m, wf_mm m ->
+  forall s f g x p p0 s' c',
+    K m s -> f_cont (fd m f) = true -> f_opp (fd m f) = Some g ->
+    vals s (x, g) = [VNone] -> unowned m s x -> (f_many (fd m f) = false -> vals s (p, f) = [VNone]) ->
+    execute m s (CSet x g (VObj p) p0) = ((None, s'), c') ->
+    inverts m c' s s' /\ cc2 s s' p f (plusx m f x (vals s (p, f))) x g [VObj p] (Some (p, f)).
+Proof. exact set_end_link_undo_redo. Qed.
+Print Assumptions C06_set_on_container_end_link_undo_redo.
+
+(* x.g = None: exact when x is the last child of its container (undo re-links through the setter of g, which
+   appends; otherwise C06_set_on_container_end_relink_refuted, F-C06-relink-order) *)
+Theorem C06_set_on_container_end_unlink_undo_redo :
+  forall m, wf_mm m ->
+  forall s f g x p p0 s' c',
+    K m s -> f_cont (fd m f) = true -> f_opp (fd m f) = Some g ->
+    vals s (x, g) = [VObj p] -> (f_many (fd m f) = true -> lastv (VObj x) (vals s (p, f))) ->
+    execute m s (CSet x g VNone p0) = ((None, s'), c') ->
+    inverts m c' s s' /\ cc2 s s' p f (lessx m f x (vals s (p, f))) x g [VNone] None.
+Proof. exact set_end_unlink_undo_redo. Qed.
+Print Assumptions C06_set_on_container_end_unlink_undo_redo.
+
+Example C06_set_on_container_end_relink_refuted :
+  let s0 := fold_left (next Acyclic.ex_mm_tree) [OAppend 0 0 (VObj 1); OAppend 0 0 (VObj 2)] (init_state Acyclic.ex_mm_tree) in
+  let ms := st_run Acyclic.ex_mm_tree (s0, empty_stack) [SExec (CSet 1 1 VNone VNone); SUndo] in
+  vals s0 (0, 0) = [VObj 1; VObj 2] /\ vals (fst ms) (0, 0) = [VObj 2; VObj 1] /\
+  vals (fst ms) (1, 1) = vals s0 (1, 1) /\ cont (fst ms) 1 = cont s0 1.
+Proof. exact set_end_relink_refuted. Qed.
+
+(* Move inside a containment collection (re-ordering children), with or without container end: from index or
+   by value, any target index; only the order of the slot changes, and it comes back *)
+Theorem C06_move_containment_undo_redo :
+  forall m, wf_mm m -> ref_typed m ->
+  forall s f x v from to c1 s' c',
+    K m s -> f_cont (fd m f) = true -> f_many (fd m f) = true ->
+    (is_none v = true \/ from = None) ->
+    can_execute m s (CMove x f v from to) = (Ok true, c1) ->
+    execute m s c1 = ((None, s'), c') ->
+    exists fr w to' l2, c' = CMove x f w (Some fr) to' /\ inverts m c' s s' /\ only_cell s s' (x, f) l2.
+Proof. exact move_cont_undo_redo. Qed.
+Print Assumptions C06_move_containment_undo_redo.
+
+(* ---------- words: containment (with and without container end), Set on container ends, Compounds ---------- *)
+(* covered4 m = covered3 m closed under Compound (C06_compound_closure); covered3 m s c: c is of a kind of
+   C06Proofs.v, or Set / Add / Remove on a containment reference that puts only an unowned child under the
+   owner, or Move inside a containment collection, or Set on a container end (unset of a last child / give
+   an unowned object a container) *)
+Theorem C06_words_invariant_containment_partial :
+  forall m, wf_mm m -> ref_typed m ->
+  forall s0 w,
+    K m s0 -> run_ok m (covered4 m) (s0, [], []) w ->
+    ginv m (K m) (abs (st_run m (s0, empty_stack) w)).
+Proof. exact cont_invariant_of_words. Qed.
+Print Assumptions C06_words_invariant_containment_partial.
+
+Theorem C06_k_undo_k_redo_containment_partial :
+  forall m, wf_mm m -> ref_typed m ->
+  forall s0 w k,
+    K m s0 -> run_ok m (covered4 m) (s0, [], []) w ->
+    let ms := st_run m (s0, empty_stack) w in
+    k <= length (done_of (snd ms)) ->
+    let ms' := st_run m ms (repeat SUndo k ++ repeat SRedo k) in
+    obs_eq (fst ms') (fst ms) /\ snd ms' = snd ms.
+Proof. exact cont_k_undo_k_redo. Qed.
+Print Assumptions C06_k_undo_k_redo_containment_partial.
+
+(* the reference kinds of Proofs/C06Refs.v (metamodels without containment) closed under Compound *)
+Theorem C06_words_invariant_refs_compound_partial :
+  forall m, no_containment m -> wf_opp m -> ref_typed m ->
+  forall s0 w,
+    J m s0 -> run_ok m (covered2C m) (s0, [], []) w ->
+    ginv m (J m) (abs (st_run m (s0, empty_stack) w)).
+Proof. exact refsC_invariant_of_words. Qed.
+Print Assumptions C06_words_invariant_refs_compound_partial.
+
+Theorem C06_k_undo_k_redo_refs_compound_partial :
+  forall m, no_containment m -> wf_opp m -> ref_typed m ->
+  forall s0 w k,
+    J m s0 -> run_ok m (covered2C m) (s0, [], []) w ->
+    let ms := st_run m (s0, empty_stack) w in
+    k <= length (done_of (snd ms)) ->
+    let ms' := st_run m ms (repeat SUndo k ++ repeat SRedo k) in
+    obs_eq (fst ms') (fst ms) /\ snd ms' = snd ms.
+Proof. exact refsC_k_undo_k_redo. Qed.
+Print Assumptions C06_k_undo_k_redo_refs_compound_partial.
+
+(* non-vacuity on SymLink's metamodel (kids <-> parent, pet, twin <-> twinof): premises, a word with Set on
+   a container end (both ways), Set on containment slots with and without container end, Add, and the move
+   of a child as Compound(Remove, Add); what it computes; 7 undos + 7 redos *)
+Example C06_containment_premises :
+  wf_mm ex_mm_link /\ ref_typed ex_mm_link /\ K ex_mm_link (init_state ex_mm_link).
+Proof. exact ex_link_premises. Qed.
+
+Example C06_containment_word_ok :
+  run_ok ex_mm_link (covered4 ex_mm_link) (init_state ex_mm_link, [], []) ex_cont_word.
+Proof. exact ex_cont_word_ok. Qed.
+
+Example C06_containment_word_result :
+  let ms := st_run ex_mm_link (init_state ex_mm_link, empty_stack) ex_cont_word in
+  vals (fst ms) (0, 0) = [VObj 2] /\ vals (fst ms) (1, 0) = [] /\ vals (fst ms) (2, 1) = [VObj 0] /\
+  cont (fst ms) 2 = Some (0, 0) /\ cont (fst ms) 3 = Some (2, 3) /\ vals (fst ms) (3, 4) = [VObj 2] /\
+  sidx (snd ms) = 5%Z /\ zlen (items (snd ms)) = 7%Z /\
+  let ms1 := st_run ex_mm_link ms [SRedo] in
+  vals (fst ms1) (0, 0) = [] /\ vals (fst ms1) (1, 0) = [VObj 2] /\ vals (fst ms1) (2, 1) = [VObj 1] /\
+  cont (fst ms1) 2 = Some (1, 0) /\
+  let ms2 := st_run ex_mm_link ms1 (repeat SUndo 7 ++ repeat SRedo 7) in
+  vals (fst ms2) (1, 0) = [VObj 2] /\ cont (fst ms2) 2 = Some (1, 0) /\ cont (fst ms2) 3 = Some (2, 3) /\
+  sidx (snd ms2) = 6%Z /\
+  let ms3 := st_run ex_mm_link (init_state ex_mm_link, empty_stack) [SExec (CSet 3 1 (VObj 1) VNone)] in
+  vals (fst ms3) (1, 0) = [VObj 3] /\ cont (fst ms3) 3 = Some (1, 0).
+Proof. exact ex_cont_word_result. Qed.
+
+(* Move on a containment collection with a container end: premises, a word, what it computes *)
+Example C06_move_premises :
+  wf_mm Acyclic.ex_mm_tree /\ ref_typed Acyclic.ex_mm_tree /\ K Acyclic.ex_mm_tree (init_state Acyclic.ex_mm_tree).
+Proof. exact ex_tree_premises. Qed.
+
+Example C06_move_word_ok :
+  run_ok Acyclic.ex_mm_tree (covered4 Acyclic.ex_mm_tree) (init_state Acyclic.ex_mm_tree, [], []) ex_move_word.
+Proof. exact ex_move_word_ok. Qed.
+
+Example C06_move_word_result :
+  let ms := st_run Acyclic.ex_mm_tree (init_state Acyclic.ex_mm_tree, empty_stack) ex_move_word in
+  vals (fst ms) (0, 0) = [VObj 2; VObj 3; VObj 1] /\ cont (fst ms) 1 = Some (0, 0) /\ vals (fst ms) (1, 1) = [VObj 0] /\
+  sidx (snd ms) = 3%Z /\
+  let ms1 := st_run Acyclic.ex_mm_tree ms [SRedo] in
+  vals (fst ms1) (0, 0) = [VObj 3; VObj 2; VObj 1] /\ vals (fst ms1) (3, 1) = [VObj 0] /\ cont (fst ms1) 3 = Some (0, 0) /\
+  let ms2 := st_run Acyclic.ex_mm_tree ms [SUndo] in
+  vals (fst ms2) (0, 0) = [VObj 1; VObj 2; VObj 3] /\
+  let ms3 := st_run Acyclic.ex_mm_tree ms1 (repeat SUndo 5 ++ repeat SRedo 5) in
+  vals (fst ms3) (0, 0) = [VObj 3; VObj 2; VObj 1] /\ sidx (snd ms3) = 4%Z.
+Proof. exact ex_move_word_result. Qed.
+
+(* ---------- Delete ---------- *)
+(* whatever is deleted and whatever the snapshot holds: execute, redo and undo of a Delete keep WF *)
+Theorem C06_delete_keeps_WF :
+  forall m, wf_mm m ->
+  forall s x r i,
+    WF m s ->
+    WF m (snd (fst (execute m s (CDelete x r i)))) /\ WF m (snd (fst (redo m s (CDelete x r i)))) /\
+    WF m (snd (fst (undo m s (CDelete x r i)))).
+Proof. exact delete_keeps_WF. Qed.
+Print Assumptions C06_delete_keeps_WF.
+
+(* Delete of a LEAF child x of p (leaf m f g x p s: p.f is a containment with container end g and holds x;
+   x.g = p; every other reference of x is empty, so x has no contents; nothing is recorded in x's inverse
+   set; x is no root of a resource): after undo every feature value of every object is back, except that
+   p.f holds the same members with x at the END; containers and resource membership are back. *)
+Theorem C06_delete_leaf_undo_partial :
+  forall m f g, ce_pair m f g ->
+  forall x p s,
+    leaf m f g x p s ->
+    exists s' c', execute m s (CDelete x [] []) = ((None, s'), c') /\
+      forall t, obs_eq t s' ->
+        can_undo m t c' = Ok true /\
+        exists t', undo m t c' = ((None, t'), c') /\
+                   (forall k, k <> (p, f) -> vals t' k = vals s k) /\
+                   (forall w, In w (vals t' (p, f)) <-> In w (vals s (p, f))) /\
+                   (f_many (fd m f) = true -> lastv (VObj x) (vals t' (p, f))) /\
+                   (forall o, cont t' o = cont s o) /\ (forall o, eres t' o = eres s o) /\
+                   (forall r, rcont t' r = rcont s r).
+Proof. exact leaf_delete_undo_members. Qed.
+Print Assumptions C06_delete_leaf_undo_partial.
+
+(* exact (the whole observable state is back) when x was the last child, or p.f is single-valued *)
+Theorem C06_delete_leaf_undo_exact_partial :
+  forall m f g, ce_pair m f g ->
+  forall x p s,
+    leaf m f g x p s -> (f_many (fd m f) = true -> lastv (VObj x) (vals s (p, f))) ->
+    exists s' c', execute m s (CDelete x [] []) = ((None, s'), c') /\
+      forall t, obs_eq t s' ->
+        can_undo m t c' = Ok true /\ exists t', undo m t c' = ((None, t'), c') /\ obs_eq t' s.
+Proof. exact leaf_delete_undo_exact. Qed.
+Print Assumptions C06_delete_leaf_undo_exact_partial.
+
+(* the forward direction and the command recorded; redo from the state undo left (x's inverse set still
+   empty there) gives the state after the Delete and the same recorded command *)
+Theorem C06_delete_leaf_execute_redo_partial :
+  forall m f g, ce_pair m f g ->
+  forall x p s,
+    leaf m f g x p s ->
+    let s' := delete_obj (S (length (ocls m))) m s x true in
+    let c' := CDelete x [(x, map (fun h => (h, vals s (x, h))) (ref_feats m x))] [(x, [])] in
+    execute m s (CDelete x [] []) = ((None, s'), c') /\
+    cc2 s s' p f (lessx m f x (vals s (p, f))) x g [VNone] None /\
+    forall t,
+      cc2 s t p f (plusx m f x (lessx m f x (vals s (p, f)))) x g (vals s (x, g)) (cont s x) ->
+      inv t x = [] ->
+      exists t', redo m t c' = ((None, t'), c') /\ obs_eq t' s'.
+Proof. exact leaf_delete_execute_redo. Qed.
+Print Assumptions C06_delete_leaf_execute_redo_partial.
+
+(* the leaf premises follow from the invariant K and what is specific to the leaf *)
+Theorem C06_delete_leaf_premises :
+  forall m, wf_mm m ->
+  forall f g x p s,
+    K m s -> f_cont (fd m f) = true -> f_opp (fd m f) = Some g ->
+    In (VObj x) (vals s (p, f)) -> p <> x -> In g (ref_feats m x) ->
+    (forall h, In h (ref_feats m x) -> h <> g -> empty_cell m s x h) -> inv s x = [] ->
+    ce_pair m f g /\ leaf m f g x p s.
+Proof. exact leaf_of_K. Qed.
+Print Assumptions C06_delete_leaf_premises.
+
+(* non-vacuity on Acyclic's tree metamodel (kids <-> parent): o0.kids = [o1, o2], o1.kids = [o3]; o2 is a leaf
+   and the last child of o0 *)
+Example C06_delete_leaf_witness :
+  ce_pair Acyclic.ex_mm_tree 0 1 /\ leaf Acyclic.ex_mm_tree 0 1 2 0 ex_tree_s0 /\
+  lastv (VObj 2) (vals ex_tree_s0 (0, 0)).
+Proof. exact ex_leaf_witness. Qed.
+
+Example C06_delete_leaf_result :
+  let ms := st_run Acyclic.ex_mm_tree (ex_tree_s0, empty_stack) [SExec (CDelete 2 [] [])] in
+  vals (fst ms) (0, 0) = [VObj 1] /\ vals (fst ms) (2, 1) = [VNone] /\ cont (fst ms) 2 = None /\
+  let ms1 := st_run Acyclic.ex_mm_tree ms [SUndo] in
+  vals (fst ms1) (0, 0) = [VObj 1; VObj 2] /\ vals (fst ms1) (2, 1) = [VObj 0] /\ cont (fst ms1) 2 = Some (0, 0) /\
+  let ms2 := st_run Acyclic.ex_mm_tree ms1 [SRedo; SUndo] in
+  vals (fst ms2) (0, 0) = [VObj 1; VObj 2] /\ cont (fst ms2) 2 = Some (0, 0) /\ sidx (snd ms2) = (-1)%Z.
+Proof. exact ex_leaf_result. Qed.
+
+(* FALSE: the order of p.f in general.  kids is many-valued with a SINGLE-valued opposite, so the property
+   wants its order back; Delete(o1) - a middle child with its own child o3 -, undo: o0.kids = [o2, o1]; every
+   other value, the containers of o1 and o3 are back.  Same on the implementation (F-C06-relink-order). *)
+Example C06_delete_undo_child_order_refuted :
+  let ms := st_run Acyclic.ex_mm_tree (ex_tree_s0, empty_stack) [SExec (CDelete 1 [] []); SUndo] in
+  vals ex_tree_s0 (0, 0) = [VObj 1; VObj 2] /\ vals (fst ms) (0, 0) = [VObj 2; VObj 1] /\
+  vals (fst ms) (1, 0) = vals ex_tree_s0 (1, 0) /\ vals (fst ms) (1, 1) = vals ex_tree_s0 (1, 1) /\
+  vals (fst ms) (3, 1) = vals ex_tree_s0 (3, 1) /\
+  cont (fst ms) 1 = cont ex_tree_s0 1 /\ cont (fst ms) 3 = cont ex_tree_s0 3 /\ sidx (snd ms) = (-1)%Z.
+Proof. exact delete_undo_child_order_refuted. Qed.
